@@ -1,5 +1,5 @@
 (* C14 — shape of the generated cases and the two executable verdicts. No proofs. *)
-From Coq Require Import ZArith List Bool.
+From Coq Require Import ZArith List Bool Uint63.
 From VLib Require Import CaseLib.
 From C14 Require Import Model.
 Import ListNotations.
@@ -52,7 +52,7 @@ Fixpoint nondecreasing (l : list Z) : bool :=
   | _ => true
   end.
 
-Inductive case :=
+Inductive dcase :=
 (* util.Bitmask: NewBitmask(size); Set(p, true) for p in sets; bin = GetBitmaskBinary();
    qs = (l, r, HasBitsIn(l, r)) *)
 | CBits (size : Z) (sets : list Z) (bin : list Z) (qs : list (Z * Z * bool))
@@ -91,7 +91,7 @@ Definition model_frac_info (creation : Z) (ids : list id) (sealed restored : boo
   else Some (active_info creation mids).
 
 (* ------------------------------------------------------------ model output = implementation output *)
-Definition case_agrees (c : case) : bool :=
+Definition dcase_agrees (c : dcase) : bool :=
   match c with
   | CBits size sets bin qs =>
       let b := fold_left bm_set sets (bm_new size) in
@@ -151,7 +151,7 @@ Definition case_agrees (c : case) : bool :=
    is not stored when the query starts at 0. *)
 Definition has_zero_id (ids : list id) : bool := existsb (fun x => id_eqb x (0, 0)) ids.
 
-Definition case_spec_ok (c : case) : bool :=
+Definition dcase_spec_ok (c : dcase) : bool :=
   match c with
   | CBits size sets bin qs =>
       forallb (fun q => let '(l, r, res) := q in
@@ -193,6 +193,84 @@ Definition case_spec_ok (c : case) : bool :=
         forallb (fun p => snd p) fetched
       else true
   end.
+
+(* ------------------------------------------------------------ wire format of the generated files.
+   Coq elaborates literals slowly (about 30 us per AST node; a 13-digit Z numeral is ~45 nodes, and
+   every polymorphic cons/pair adds implicit arguments). The driver therefore writes the cases with
+   monomorphic containers whose numbers are primitive 63-bit integer literals (one node each);
+   [decode] maps them to [dcase]. A uint64 is packed into 63 bits by zones (see [wz]); the driver
+   only generates values inside the zones. *)
+Definition p60 : Z := 1152921504606846976.
+Definition p61 : Z := 2 * p60.
+Definition p62 : Z := 4 * p60.
+(* [0, 2^61) as is; [2^61, 2^62) -> [2^63 - 2^60, 2^63 + 2^60); [2^62, 2^63) -> [2^64 - 2^62, 2^64) *)
+Definition wz (x : int) : Z :=
+  let z := Uint63.to_Z x in
+  if z <? p61 then z
+  else if z <? p62 then z - p61 + (two63 - p60)
+  else z - p62 + (two64 - p62).
+
+Inductive zl := zn | zc (h : int) (t : zl).
+Inductive idl := idn | idc (m r : int) (t : idl).
+Inductive q3l := q3n | q3c (a b : int) (r : bool) (t : q3l).
+Inductive q4l := q4n | q4c (a b : int) (r1 r2 : bool) (t : q4l).
+Inductive b4l := b4n | b4c (a b c d : int) (t : b4l).
+Inductive fql := fqn | fqc (qf qt : int) (r : bool) (lo hi : int) (res : idl) (t : fql).
+Inductive sql := sqn | sqc (qf qt : int) (res : idl) (t : sql).
+Inductive ful := fun_ | fuc (m r : int) (found : bool) (t : ful).
+Inductive wstate := WNone | WPanic | WDist (f t b s : int) (bin : zl).
+
+Fixpoint of_zl (l : zl) : list Z := match l with zn => [] | zc h t => wz h :: of_zl t end.
+Fixpoint of_idl (l : idl) : list id := match l with idn => [] | idc m r t => (wz m, wz r) :: of_idl t end.
+Fixpoint of_q3l (l : q3l) : list (Z * Z * bool) :=
+  match l with q3n => [] | q3c a b r t => (wz a, wz b, r) :: of_q3l t end.
+Fixpoint of_q4l (l : q4l) : list (Z * Z * bool * bool) :=
+  match l with q4n => [] | q4c a b r1 r2 t => (wz a, wz b, r1, r2) :: of_q4l t end.
+Fixpoint of_b4l (l : b4l) : list (Z * Z * Z * Z) :=
+  match l with b4n => [] | b4c a b c d t => (wz a, wz b, wz c, wz d) :: of_b4l t end.
+Fixpoint of_fql (l : fql) : list (Z * Z * bool * Z * Z * list id) :=
+  match l with
+  | fqn => []
+  | fqc qf qt r lo hi res t => (wz qf, wz qt, r, wz lo, wz hi, of_idl res) :: of_fql t
+  end.
+Fixpoint of_sql (l : sql) : list (Z * Z * list id) :=
+  match l with sqn => [] | sqc qf qt res t => (wz qf, wz qt, of_idl res) :: of_sql t end.
+Fixpoint of_ful (l : ful) : list (id * bool) :=
+  match l with fun_ => [] | fuc m r b t => ((wz m, wz r), b) :: of_ful t end.
+Definition of_wstate (w : wstate) : ostate :=
+  match w with
+  | WNone => SNone
+  | WPanic => SPanic
+  | WDist f t b s bin => SDist (wz f, wz t, wz b, wz s, of_zl bin)
+  end.
+Definition dstate_of_w (w : wstate) : dstate :=
+  match w with WDist f t b s bin => (wz f, wz t, wz b, wz s, of_zl bin) | _ => (0, 0, 0, -1, []) end.
+
+Inductive case :=
+| WBits (size : int) (sets bin : zl) (qs : q3l)
+| WDistC (from to bucket : int) (adds : zl) (st rt : wstate) (idx : idl) (qs : q4l)
+| WInfo (creation : int) (docs : zl) (with_stub : bool) (ifrom ito : int) (st rt : wstate) (qs : q4l)
+| WBorders (ids : idl) (qs : b4l)
+| WFrac (creation : int) (ids : idl) (sealed restored : bool) (itotal ifrom ito : int) (st : wstate)
+        (mins : idl) (tbl_ok : bool) (qs : fql)
+| WStore (all : idl) (qs : sql) (fetched : ful).
+
+Definition decode (c : case) : dcase :=
+  match c with
+  | WBits size sets bin qs => CBits (wz size) (of_zl sets) (of_zl bin) (of_q3l qs)
+  | WDistC from to bucket adds st rt idx qs =>
+      CDist (wz from) (wz to) (wz bucket) (of_zl adds) (dstate_of_w st) (of_wstate rt) (of_idl idx) (of_q4l qs)
+  | WInfo creation docs with_stub ifrom ito st rt qs =>
+      CInfo (wz creation) (of_zl docs) with_stub (wz ifrom) (wz ito) (of_wstate st) (of_wstate rt) (of_q4l qs)
+  | WBorders ids qs => CBorders (of_idl ids) (of_b4l qs)
+  | WFrac creation ids sealed restored itotal ifrom ito st mins tbl_ok qs =>
+      CFrac (wz creation) (of_idl ids) sealed restored (wz itotal) (wz ifrom) (wz ito) (of_wstate st)
+            (of_idl mins) tbl_ok (of_fql qs)
+  | WStore all qs fetched => CStore (of_idl all) (of_sql qs) (of_ful fetched)
+  end.
+
+Definition case_agrees (c : case) : bool := dcase_agrees (decode c).
+Definition case_spec_ok (c : case) : bool := dcase_spec_ok (decode c).
 
 Definition diff_indices (l : list case) : list nat := bad_indices (fun c => negb (case_agrees c)) l.
 Definition specfail_indices (l : list case) : list nat := bad_indices (fun c => negb (case_spec_ok c)) l.
